@@ -54,6 +54,13 @@ RULE = ("four streams. fit: random sets of 1..4 state trajectories (lengths 1..1
         "the matrix the caller holds afterwards (1e-8; measured 1e-17), the second decomposition must agree with the first (1e-8; "
         "measured 0), the ensemble history must be p0 . T^k of the snapshot (1e-9), normalize must return counts/rowsum (1e-12) with "
         "stationary populations; oracle only (no Coq term at this size), results are small summaries. "
+        "Round 3s (E): fit stream `short` (36 quick / 288 thorough): 1..3 trajectories of <= lag_time frames next to 1..3 longer ones, in "
+        "two of three cases a short one is the only visit to the largest state id while max_n_states=None (the inferred number of states "
+        "then rests on a trajectory without any transition), trim off / on alternately, short ones first / last / anywhere; fit stream "
+        "`islands` (36 / 288): 2..4 closed sets of 2..4 states (ids in blocks / interleaved / shuffled), every trajectory a cycle through "
+        "one set followed by random moves inside it, so every state has a count to and from another state although the sets are mutually "
+        "disconnected, weights different (sometimes tied), sometimes an extra never-connected state, trim on in three of four cases; both "
+        "judged by the same clauses as the main fit stream (estimator == function pipeline, Coq model, round trip). "
         "non-trivial := hist: >= 2 successful fits with >= 2 states; fit: >= 2 states kept and >= 3 transitions counted; eig: >= 3 states; ens: >= 2 steps and "
         ">= 2 states; imp: >= 1 finite timescale; densebig: every step ran")
 TRUSTED = ["translator/tr_msm.py (attribute stores of MSM.__init__, argument binding of the calls in fit and "
@@ -174,6 +181,11 @@ def _gen_fit(rng):
         c["lag"] = rng.choice([0, -1])
     elif r < 0.08 and mx >= 1:
         c["maxn"] = mx                       # too small: coo_matrix rejects the coordinate
+    return _fit_settle(c, rng)
+
+
+def _fit_settle(c, rng):
+    """builder / populations choice that the counts of the case allow (shared by all fit generators)"""
     cands = _final_candidates(c)
     if cands is not None:
         if c["builder"] == "mle":
@@ -192,6 +204,104 @@ def _gen_fit(rng):
     if c["by"] == "name":
         c["eq"] = True
     return c
+
+
+def _short_top(c):
+    """a trajectory with <= lag frames holds the largest state id, which no longer trajectory visits, and the number of
+    states is inferred from the data: leaving such a trajectory out of the counting changes the number of states"""
+    if c["lag"] < 1 or c["maxn"] is not None:
+        return False
+    mx = max(max(t) for t in c["trjs"])
+    lo = [t for t in c["trjs"] if len(t) > c["lag"]]
+    return bool(lo) and max(max(t) for t in lo) < mx
+
+
+def _gen_fit_short(rng, i):
+    """aborted runs: 1..3 trajectories of <= lag_time frames next to 1..3 longer ones; (two of three cases) a short one
+    is the only visit to the state with the largest id, so that the inferred number of states rests on a trajectory
+    that contributes no transition.  trim off and on, position of the short trajectories first / last / anywhere"""
+    lag = rng.choice([1, 2, 2, 3, 3, 4, 5])
+    ns = rng.choice([2, 3, 3, 4, 5])
+    longs = []
+    for _ in range(rng.randint(1, 3)):
+        L = lag + rng.choice([1, 1, 2, 4, 7, 11])
+        if rng.random() < 0.5:
+            longs.append([rng.randrange(ns) for _ in range(L)])
+        else:
+            s, t = rng.randrange(ns), []
+            for _ in range(L):
+                if rng.random() < 0.5:
+                    s = (s + rng.choice([-1, 1])) % ns
+                t.append(s)
+            longs.append(t)
+    top = max(max(t) for t in longs)
+    shorts = []
+    for j in range(rng.randint(1, 3)):
+        L = rng.randint(1, lag)
+        if j == 0 and i % 3 != 2:
+            hi = top + rng.choice([1, 1, 1, 2, 3])           # the only visit(s) to the largest id
+            t = [rng.choice([hi, rng.randrange(hi + 1)]) for _ in range(L)]
+            t[rng.randrange(L)] = hi
+        else:
+            t = [rng.randrange(top + 1) for _ in range(L)]
+        shorts.append(t)
+    where = rng.choice(["first", "last", "mixed"])
+    trjs = shorts + longs if where == "first" else longs + shorts
+    if where == "mixed":
+        rng.shuffle(trjs)
+    mx = max(max(t) for t in trjs)
+    c = {"kind": "fit", "trjs": trjs, "lag": lag, "trim": i % 2 == 1, "sliding": rng.random() < 0.5,
+         "maxn": rng.choice([None, None, None, mx + 1, mx + 2]),
+         "by": rng.choice(["name", "fn", "fn"]), "builder": rng.choice(BUILDERS), "eq": True,
+         "ctor": rng.choice(["init", "from_assignments"]), "stream": "short"}
+    return _fit_settle(c, rng)
+
+
+def _closed_components(M):
+    """number of connected components (>= 2 states each) in which every state has a count to AND from another state"""
+    n = len(M)
+    ok = [any(M[i][j] for j in range(n) if j != i) and any(M[j][i] for j in range(n) if j != i) for i in range(n)]
+    return sum(1 for comp in _components(M) if len(comp) >= 2 and all(ok[i] for i in comp))
+
+
+def _gen_fit_islands(rng, i):
+    """2..4 sets of states that are never left: every trajectory walks inside ONE set (a cycle through all its states,
+    then random moves inside), so the sets are internally connected and mutually disconnected, of different (sometimes
+    equal) weight; state ids of the sets in blocks, interleaved or shuffled; (one of four cases) an extra state that is
+    only visited once.  trim on (three of four cases)"""
+    nc = rng.choice([2, 2, 2, 3, 3, 4])
+    sizes = [rng.choice([2, 2, 3, 3, 4]) for _ in range(nc)]
+    ids = list(range(sum(sizes)))
+    form = rng.choice(["blocks", "interleaved", "shuffled"])
+    if form == "shuffled":
+        rng.shuffle(ids)
+    elif form == "interleaved":
+        ids = sorted(ids, key=lambda x: (x % nc, x))
+    comps, p = [], 0
+    for s in sizes:
+        comps.append(ids[p:p + s])
+        p += s
+    lag = rng.choice([1, 1, 1, 1, 2, 3])
+    base = rng.choice([3, 5, 8])
+    trjs = []
+    for k, comp in enumerate(comps):
+        for rep in range(rng.choice([1, 1, 2])):
+            L = len(comp) * lag + 1 + rng.choice([0, 1, 2]) + (base * ((k * 2 + i) % nc) if i % 5 else 0)
+            t = [comp[q % len(comp)] for q in range(len(comp) + 1)]
+            if lag > 1:                          # the cycle at the pace of the lag time: a b c a -> a a b b c c a a
+                t = [x for x in t for _ in range(lag)]
+            while len(t) < L:
+                t.append(rng.choice(comp))
+            trjs.append(t)
+    if i % 4 == 3:
+        trjs.append([len(ids)] * rng.choice([1, 2, lag + 1]))           # a state nothing leads to or from
+    rng.shuffle(trjs)
+    mx = max(max(t) for t in trjs)
+    c = {"kind": "fit", "trjs": trjs, "lag": lag, "trim": i % 4 != 2, "sliding": rng.random() < 0.6,
+         "maxn": rng.choice([None, None, mx + 1, mx + 2]),
+         "by": rng.choice(["name", "fn", "fn"]), "builder": rng.choice(BUILDERS), "eq": True,
+         "ctor": rng.choice(["init", "from_assignments"]), "stream": "islands"}
+    return _fit_settle(c, rng)
 
 
 def _rand_stochastic(rng, n, flavour):
@@ -556,6 +666,10 @@ def generate(rng, tier):
             if b == "transpose" and not all(sum(map(sum, M)) > 0 for M in cands):
                 c["by"], c["eq"] = "fn", False
             cases.append(c)
+    # round 3s (E): trajectories no longer than the lag time (one of them the only visit to the largest state id while the
+    # number of states is inferred), and several closed, internally connected sets of states of different weight
+    cases += [_gen_fit_short(rng, i) for i in range(36 * k)]
+    cases += [_gen_fit_islands(rng, i) for i in range(36 * k)]
     return cases
 
 
@@ -1679,6 +1793,21 @@ def tags(c, r):
                     t.append("trim-renumbers")
             if _tie(c, r):
                 t.append("trim-weight-tie")
+            if c["lag"] >= 1 and any(len(x) <= c["lag"] for x in c["trjs"]) and any(len(x) > c["lag"] for x in c["trjs"]):
+                t.append("fit-short-trajectory")
+            if _short_top(c):
+                t += ["fit-short-top-trajectory", "fit-short-top-trimmed" if c["trim"] else "fit-short-top-untrimmed"]
+            if c["lag"] >= 1 and _final_candidates(c) is not None:
+                mx = max(max(x) for x in c["trjs"])
+                n0 = c["maxn"] if c["maxn"] is not None else mx + 1
+                M0 = [row[:n0] for row in _counts(c["trjs"], c["lag"], c["sliding"], max(n0, mx + 1))[:n0]]
+                ncl = _closed_components(M0)
+                if ncl >= 2:
+                    t.append("fit-closed-islands-trim-on" if c["trim"] else "fit-closed-islands-trim-off")
+                    if c["trim"] and ncl == len(_components(M0)):
+                        t.append("fit-only-closed-islands-trim-on")       # no state without a count to / from another state
+                        if not _tie(c, r):
+                            t.append("fit-only-closed-islands-unequal-weight")
             if "rt" in r and "err" not in r["rt"]:
                 t.append("roundtrip-run")
     elif k == "eig":
@@ -1728,7 +1857,10 @@ ESSENTIAL_TAGS = ["arpack-1000-states", "kind:fit", "kind:eig", "kind:ens", "kin
                   "imp-lags-duplicate", "imp-lags-unsorted", "imp-lags-duplicate-and-unsorted", "imp-lags-sorted-distinct",
                   "imp-grid:loggrid", "imp-rows-vs-single-lag-duplicate",
                   "dense-1000-states", "dense-c-contiguous-float64-left", "dense-argument-unchanged-checked", "dense-call-twice",
-                  "dense-ensemble-after-decomposition", "dense-normalize-pipeline"]
+                  "dense-ensemble-after-decomposition", "dense-normalize-pipeline",
+                  "fit-short-trajectory", "fit-short-top-trajectory", "fit-short-top-trimmed", "fit-short-top-untrimmed",
+                  "fit-closed-islands-trim-on", "fit-closed-islands-trim-off", "fit-only-closed-islands-trim-on",
+                  "fit-only-closed-islands-unequal-weight"]
 
 
 def search(rng, tier):
